@@ -13,6 +13,19 @@ def A(items, **kw): return dict(type="array", items=items, **kw)
 def O(props, required=(), **kw): return dict(type="object", properties=props, required=list(required), **kw)
 def REF(i): return dict(ref=i)
 def ONEOF(*vs): return dict(type="oneOf", oneOf=list(vs))
+_disc_n = [0]
+def DISC(prop, variants):
+    """oneOf of named object components told apart by an explicit discriminator property with a mapping; every
+    variant declares the property as a required one-value enum, so JSON Schema semantics and the mapping agree"""
+    _disc_n[0] += 1
+    alts, names, vals = [], [], []
+    for j, var in enumerate(variants):
+        val, props, required = var[:3]
+        kw = var[3] if len(var) > 3 else {}
+        pr = {prop: S(enum=[val])}; pr.update(props)
+        alts.append(O(pr, required=[prop] + list(required), **kw))
+        names.append("Dv%d%c" % (_disc_n[0], ord('A') + j)); vals.append(val)
+    return dict(type="oneOf", oneOf=alts, disc=prop, disc_vals=vals, disc_names=names)
 def ALLOF(name, base_props, base_required, extra_required, extra_props=None, base_first=True):
     """allOf[$ref Base, {type: object, required: [...], properties: ...}]: semantic form = the merged object"""
     merged = dict(base_props); merged.update(extra_props or {})
@@ -72,6 +85,11 @@ SCHEMAS = [
     O({}, additionalProperties=I(), maxProperties=0),
     O({}, additionalProperties=S(maxLength=1), minProperties=1, maxProperties=1),
     # a JSON number member next to string-formatted float members, all optional (their generic Opt wrappers must stay distinct)
+    # sum types with an explicit discriminator (mapping to named components): at top level, as a member, with a variant
+    # that has no member besides the discriminator and one that allows typed additional members
+    DISC("kind", [("cat", {"lives": I(minimum=0, maximum=9)}, ["lives"]), ("dog", {"name": S(maxLength=2), "age": I()}, [])]),
+    O({"pet": DISC("t", [("a", {}, []), ("b", {"n": I()}, ["n"])]), "id": I()}, required=["id"]),
+    DISC("k", [("m", {}, [], dict(additionalProperties=I(maximum=50))), ("o", {"w": S(maxLength=1)}, [])]),
     # unix timestamps as JSON numbers (milliseconds far beyond the int64-nanosecond window included)
     O({"ms": I(format="unix-milli"), "s": I(format="unix-seconds"), "oms": I(format="unix-milli", nullable=True)}, required=["ms"]),
     O({"ratio": dict(type="number", format="float"), "price": S(format="float32"), "wide": dict(type="number", format="double"), "cost": S(format="float64")}, required=[]),
@@ -89,6 +107,15 @@ def yaml_schema(s, ind):
         branches = [[pad + "  - $ref: '#/components/schemas/%s'" % name], [pad + "  - " + yaml_schema(second, 0)[0]] + [pad + "    " + l for l in yaml_schema(second, 0)[1:]]]
         if not base_first: branches.reverse()
         return [pad + "allOf:"] + branches[0] + branches[1]
+    if "disc" in s:
+        L.append(pad + "oneOf:")
+        for name, alt in zip(s["disc_names"], s["oneOf"]):
+            EXTRA_COMPONENTS.append((name, alt))
+            L.append(pad + "  - $ref: '#/components/schemas/%s'" % name)
+        L.append(pad + "discriminator:")
+        L.append(pad + "  propertyName: %s" % s["disc"])
+        L.append(pad + "  mapping: {%s}" % ", ".join("%s: '#/components/schemas/%s'" % (v, n) for v, n in zip(s["disc_vals"], s["disc_names"])))
+        return L
     if "oneOf" in s:
         L.append(pad + "oneOf:")
         for v in s["oneOf"]:
@@ -122,6 +149,8 @@ def yaml_schema(s, ind):
 def go_schema(s):
     if "ref" in s:
         return "&zzSchema{Ref: %d}" % (s["ref"] + 1)
+    if "disc" in s:
+        return "&zzSchema{OneOf: []*zzSchema{%s}, Disc: %s}" % (", ".join(go_schema(v) for v in s["oneOf"]), json.dumps(s["disc"]))
     if "oneOf" in s:
         return "&zzSchema{OneOf: []*zzSchema{%s}}" % ", ".join(go_schema(v) for v in s["oneOf"])
     f = ["Type: %s" % json.dumps(s["type"])]
@@ -176,5 +205,5 @@ for i in range(len(SCHEMAS)):
         rnd.append([0, i, v])
 print(json.dumps({"packages": [{"name": "sm", "spec": spec, "extra_go": {"data.go": "\n".join(data) + "\n"}}],
                   "cases": {tier: ([{"entry": "HAccept", "args": acc}] if mode == "accept" else [{"entry": "HRound", "args": rnd}])},
-                  "bounds": {"schemas": "%d named schemas: integer bounds (inclusive/exclusive/negative), multipleOf, integer and string enums, string length, arrays (min/max/uniqueItems, nested item validation), objects (required/optional/nullable members, additionalProperties:false, nesting, 10 and 18 members so the required mask spans 2 and 3 bytes), three recursive schemas (member / array-item self reference, unfolded to depth 2) and three allOf schemas (a branch that only lists required members of the other, both orders, a branch with own properties), two map schemas (additionalProperties with a schema), string-formatted uint64 members (1-2 digits, or nineteen digits around 2^63 with the last three symbolic; every uint64 is C13's subject), unix-milli / unix-seconds members (one digit or a 14-digit count with two symbolic digits), a JSON number and string-formatted floats (concrete literals), and three sum types (by JSON type; objects told apart by their own members - incl. instances that carry the required members of two variants and must be refused; as member and array item), zero upper bounds (maxItems / maxLength / maxProperties 0) and property counts of maps" % len(SCHEMAS),
+                  "bounds": {"schemas": "%d named schemas: integer bounds (inclusive/exclusive/negative), multipleOf, integer and string enums, string length, arrays (min/max/uniqueItems, nested item validation), objects (required/optional/nullable members, additionalProperties:false, nesting, 10 and 18 members so the required mask spans 2 and 3 bytes), three recursive schemas (member / array-item self reference, unfolded to depth 2) and three allOf schemas (a branch that only lists required members of the other, both orders, a branch with own properties), two map schemas (additionalProperties with a schema), string-formatted uint64 members (1-2 digits, or nineteen digits around 2^63 with the last three symbolic; every uint64 is C13's subject), unix-milli / unix-seconds members (one digit or a 14-digit count with two symbolic digits), a JSON number and string-formatted floats (concrete literals), two discriminator sums (top level and as a member; unknown, missing and mistyped discriminator values), and three sum types (by JSON type; objects told apart by their own members - incl. instances that carry the required members of two variants and must be refused; as member and array item), zero upper bounds (maxItems / maxLength / maxProperties 0) and property counts of maps" % len(SCHEMAS),
                              "instances": "%d schema-directed instance skeletons per schema (valid instances, dropped required member, wrong type, null, undeclared member; 0..3 array items; optional members present/absent/null) with symbolic leaves: every digit of 1-2 digit integers with optional sign, every printable-ASCII string byte (0..2 bytes plus a two-byte rune), every boolean" % nvar}}))
